@@ -829,6 +829,7 @@ func verifWire(p vbase.Params, r *vbase.Result) {
 			}
 		}
 	}
+	verifWireRogue(p, r, idx)
 }
 
 // watch is a watchdog around one delivery: a handler that does not return within 30 s (no blocking call is
